@@ -317,7 +317,7 @@ func init() {
 			if c.Thorough() {
 				depth, capn = 4, 4
 			}
-			ex := &Explore{Label: "list-histories", Starts: []string{"http://h/", "http://h/?a=1&b=2&a=3", "foo:x?b=+&A=%41"}, Alphabet: SPAlphabet(1, SPNames, SPValues), Depth: depth, MLCap: capn, Check: c11Check, Kind: "c11-hist"}
+			ex := &Explore{Label: "list-histories", Starts: []string{"http://h/", "http://h/?a=1&b=2&a=3", "foo:x?b=+&A=%41"}, Alphabet: append(SPAlphabet(1, SPNames, SPValues), Op{Kind: "observe"}), Depth: depth, MLCap: capn, Check: c11Check, Kind: "c11-hist"}
 			ex.run2(c, capn)
 			// long lists: sorting algorithms switch strategy with the length (insertion sort below a threshold),
 			// so stability must also be decided beyond the small lists of the history search
